@@ -137,6 +137,48 @@ Proof.
       try (intros m Hm; inversion Hm; subst; auto; fail).
 Qed.
 
+(* the entry of this caller's mapping may be in the global mapping list *)
+Definition has_glob (t : lo) : bool :=
+  match l_kind t, l_pc t with
+  | KAct _ _ _, (PIdxL | PIdxT | PUpdCode | PUpdId | PRbL | PRbT | PRbGlob | PDone (ROk _) | PRelAdm (ROk _)) => true
+  | _, _ => false
+  end.
+
+Definition not_i (i : nat) (j : nat) : bool := negb (Nat.eqb j i).
+
+Lemma step_glob (P : params) (t : lo) (s : sh) (t' : lo) (s' : sh) :
+  tstep Current P t s = (t', s') ->
+  (glob s' = glob s /\ has_glob t' = has_glob t)
+  \/ (glob s' = glob s ++ [l_me t] /\ has_glob t' = true)
+  \/ (glob s' = filter (not_i (l_me t)) (glob s) /\ has_glob t' = false).
+Proof.
+  destruct t as [me k p snap f e]. unfold tstep. cbn [l_kind].
+  destruct k as [l la ok | | | ].
+  - unfold act_step; cbn [l_pc l_me l_fault l_snap l_err].
+    destruct p as [| | | | | | | | | | | | | | e0 | | r | | r | | | | | | |]; try (destruct r as [m0| | | |e1| |]);
+      cbn [use_claim create_cleanup use_adm Current leave fin];
+      break_step; intros H; inversion H; subst; clear H;
+      cbn [has_glob l_kind l_pc l_me set_pc set_snap set_fault set_err finish
+           glob set_claim set_adm set_tidx set_mains set_glob set_cidx set_by_code set_by_id del_main];
+      try (left; split; reflexivity); try (right; left; split; reflexivity); try (right; right; split; reflexivity).
+  - unfold rev_step; cbn [l_pc l_me l_fault l_snap l_err].
+    destruct p as [| | | | | | | | | | | | | | e0 | | r | | r | | | | | | |]; try (destruct r as [m0| | | |e1| |]);
+      cbn [use_claim create_cleanup use_adm Current rleave];
+      break_step; intros H; inversion H; subst; clear H;
+      cbn [has_glob l_kind l_pc l_me set_pc set_snap set_fault set_err finish
+           glob set_claim set_adm set_tidx set_mains set_glob set_cidx set_by_code set_by_id del_main];
+      left; split; reflexivity.
+  - cbn [l_pc].
+    destruct p as [| | | | | | | | | | | | | | e0 | | r | | r | | | | | | |]; intros H; inversion H; subst; clear H;
+      cbn [has_glob l_kind l_pc set_pc finish glob set_expired]; left; split; reflexivity.
+  - unfold list_step; cbn [l_pc l_me l_fault l_snap l_err].
+    destruct p as [| | | | | | | | | | | | | | e0 | | r | | r | | | | | | |];
+      cbn [use_claim create_cleanup use_adm purge_revoked Current andb];
+      break_step; intros H; inversion H; subst; clear H;
+      cbn [has_glob l_kind l_pc l_me set_pc finish glob set_claim set_tidx set_by_code set_by_id];
+      left; split; reflexivity.
+Qed.
+
 (* ---------- the invariant ---------- *)
 
 Section Inv.
@@ -528,6 +570,84 @@ Section Inv.
       assert (X := Ifree Hexp E _ _ Hi). unfold crit in X. rewrite Hk, Hp in X. discriminate. }
     split; [exact Hc|].
     intros t l la ok Hkt Hpt. exact (claim_held_turns_away t _ l la ok Hkt Hpt Hc).
+  Qed.
+
+  (* ---------- the global mapping list ---------- *)
+
+  Definition GInv (s : st sh lo) : Prop :=
+    Inv s /\ forall i, In i (glob (fst s)) -> exists k t, nth_error (snd s) k = Some t /\ l_me t = i /\ has_glob t = true.
+
+  Lemma ginv_step s i : GInv s -> GInv (sstep s i).
+  Proof.
+    intros [HI HG]. split; [apply inv_step; exact HI|].
+    unfold sys_step. destruct (nth_error (snd s) i) as [t|] eqn:Hi; [|exact HG].
+    destruct (step t (fst s)) as [t' s'] eqn:Hst. cbn [fst snd].
+    destruct (step_facts P t (fst s) t' s' Hst) as (Fme & Fkind & _).
+    assert (Hlen : i < length (snd s)) by (apply nth_error_Some; congruence).
+    assert (Keep : forall j, In j (glob (fst s)) -> (has_glob t = true -> l_me t = j -> has_glob t' = true) ->
+                   exists k u, nth_error (upd_nth i t' (snd s)) k = Some u /\ l_me u = j /\ has_glob u = true).
+    { intros j Hj Hkeep. destruct (HG j Hj) as (k & u & Hk & Hid & Hg).
+      destruct (Nat.eq_dec k i) as [->|Hne].
+      - assert (u = t) by congruence. subst u. exists i, t'.
+        split; [apply nth_error_upd_nth_same; exact Hlen|]. split; [congruence|apply Hkeep; assumption].
+      - exists k, u. split; [rewrite nth_error_upd_nth_other by congruence; exact Hk|tauto]. }
+    intros j Hj.
+    destruct (step_glob P t (fst s) t' s' Hst) as [(Eg & Eh)|[(Eg & Eh)|(Eg & Eh)]]; rewrite Eg in Hj.
+    - apply Keep; [exact Hj|]. intros H _. congruence.
+    - apply in_app_or in Hj. destruct Hj as [Hj|[<-|[]]].
+      + apply Keep; [exact Hj|]. intros _ _. exact Eh.
+      + exists i, t'. split; [apply nth_error_upd_nth_same; exact Hlen|]. split; [exact Fme|exact Eh].
+    - apply filter_In in Hj. destruct Hj as [Hj Hn]. apply Keep; [exact Hj|].
+      intros _ Heq. unfold not_i in Hn. rewrite Heq, Nat.eqb_refl in Hn. discriminate.
+  Qed.
+
+  Theorem ginv_all s sched : start_ok s -> glob (fst s) = [] -> GInv (srun s sched).
+  Proof.
+    intros H Hg. apply (inv_all_schedules sh lo (tstep Current P) GInv); [intros s1 i; apply ginv_step|].
+    split; [apply inv_init; exact H|]. rewrite Hg. intros i [].
+  Qed.
+
+  (* in every reachable state a call that returned an error has no entry in the global mapping list either *)
+  Theorem failed_leaves_no_global_entry s sched : start_ok s -> glob (fst s) = [] ->
+    forall t e, In t (snd (srun s sched)) -> l_pc t = PDone (RErr e) -> ~ In (l_me t) (glob (fst (srun s sched))).
+  Proof.
+    intros H Hg t e Ht Hpc Hin. destruct (ginv_all s sched H Hg) as [[Iids _ _ _ _ _ _ _ _] HG].
+    destruct (HG _ Hin) as (k & u & Hk & Hid & Hgl).
+    apply In_nth_error in Ht. destruct Ht as [j Hj].
+    assert (k = j) by (apply (Iids _ _ _ _ Hk Hj); exact Hid). subst k.
+    assert (u = t) by congruence. subst u. unfold has_glob in Hgl. rewrite Hpc in Hgl. destruct (l_kind t); discriminate.
+  Qed.
+
+  (* whoever claims first: within the activation period, while some caller is past its claim (holds it, or has won),
+     the claim marker is set and every activator that reaches its Claim step is turned away without touching the store;
+     and at most one caller is past its claim at any time *)
+  Theorem claim_holder_excludes_others s sched : start_ok s ->
+    expired (fst (srun s sched)) = false ->
+    (forall i j ti tj, nth_error (snd (srun s sched)) i = Some ti -> nth_error (snd (srun s sched)) j = Some tj ->
+                       crit ti = true -> crit tj = true -> i = j) /\
+    ((exists th, In th (snd (srun s sched)) /\ crit th = true) ->
+     claim (fst (srun s sched)) = true /\
+     forall t l la ok, l_kind t = KAct l la ok -> l_pc t = PClaim ->
+       snd (step t (fst (srun s sched))) = fst (srun s sched) /\
+       exists e, l_pc (fst (step t (fst (srun s sched)))) = PRelAdm (RErr e)).
+  Proof.
+    intros H Hexp. destruct (inv_all s sched H) as [_ Ifree Icrit _ _ _ _ _ _].
+    split; [exact (Icrit Hexp)|].
+    intros (th & Hin & Hc).
+    assert (Hcl : claim (fst (srun s sched)) = true).
+    { apply not_false_iff_true. intros E. apply In_nth_error in Hin. destruct Hin as [i Hi].
+      rewrite (Ifree Hexp E _ _ Hi) in Hc. discriminate. }
+    split; [exact Hcl|]. intros t l la ok Hkt Hpt. exact (claim_held_turns_away t _ l la ok Hkt Hpt Hcl).
+  Qed.
+
+  (* connCode.Activate: an activation that has created its mapping but finds the activation period over at its commit
+     point does not write the code record: it goes into the rollback (and, by failed_leaves_nothing, returns with nothing left) *)
+  Theorem expired_at_commit_rolls_back t s0 l la ok :
+    l_kind t = KAct l la ok -> l_pc t = PIdxT -> expired s0 = true ->
+    l_pc (fst (step t s0)) = PRbL /\ by_code (snd (step t s0)) = by_code s0 /\ by_id (snd (step t s0)) = by_id s0.
+  Proof.
+    intros Hk Hp He. unfold tstep, act_step. rewrite Hk, Hp.
+    destruct (l_fault t) as [[|k]|]; cbn [tick_fault]; rewrite He; cbn; repeat split.
   Qed.
 
   (* ---------- dead codes ---------- *)
